@@ -75,15 +75,18 @@ def close(a, b):
 
 
 def pool_batch(i, complex_=False):
-    """deterministic pool of small batches of different sizes (rows x 8 bits)."""
+    """deterministic pool of small batches of different sizes: rows in 1..7, 8/16/24 bits per row (so one metric object sees inputs with
+    different numbers of blocks per item)."""
     rng = np.random.RandomState(1000 + i)
     rows = [1, 3, 2, 5, 4, 7][i % 6]
-    x = (rng.rand(rows, 8) < 0.5).astype(np.float32)
-    flip = (rng.rand(rows, 8) < [0.0, 0.1, 0.5, 0.02, 1.0, 0.2][i % 6])
+    cols = 8 * [1, 2, 3][i % 3]
+    x = (rng.rand(rows, cols) < 0.5).astype(np.float32)
+    flip = (rng.rand(rows, cols) < [0.0, 0.1, 0.5, 0.02, 1.0, 0.2][i % 6])
     y = np.where(flip, 1 - x, x).astype(np.float32)
     if complex_:
-        x = x[:, :4] + 1j * x[:, 4:]
-        y = y[:, :4] + 1j * y[:, 4:]
+        h = cols // 2
+        x = x[:, :h] + 1j * x[:, h:]
+        y = y[:, :h] + 1j * y[:, h:]
         return x.astype(np.complex64), y.astype(np.complex64)
     return x, y
 
@@ -99,11 +102,13 @@ def run_history(ctx, kind, B, ops, complex_=False, label="history"):
     for step, op in enumerate(ops):
         if op[0] in ("update", "forward"):
             x, y = pool_batch(op[1], complex_)
+            okc, v = ctx.call((lambda: m.update(torch.from_numpy(x), torch.from_numpy(y))) if op[0] == "update" else (lambda: m(torch.from_numpy(x), torch.from_numpy(y))),
+                              "C16.raises", cell, {**case, "ops": case["ops"][: step + 1]}, "the metric raised on a valid batch of this history", CHK)
+            if not okc:
+                return False
             if op[0] == "update":
-                m.update(torch.from_numpy(x), torch.from_numpy(y))
                 model.update(x, y)
             else:
-                v = m(torch.from_numpy(x), torch.from_numpy(y))
                 e, t = Model.count(model.kind, B, x, y)
                 ctx.ev()
                 if not close(v, np.float32(e / max(t, 1))):
@@ -166,9 +171,13 @@ def unit_histories_stateful(ctx, kind, B, steps, examples, complex_):
         @rule(i=st.integers(0, 11))
         def update(self, i):
             x, y = pool_batch(i, complex_)
-            self.m.update(torch.from_numpy(x), torch.from_numpy(y))
-            self.model.update(x, y)
             self.ops.append(["update", i])
+            _LAST["ops"] = list(self.ops)
+            try:
+                self.m.update(torch.from_numpy(x), torch.from_numpy(y))
+            except Exception as e:  # noqa: BLE001  a valid batch: the library raising is a failure of the metric, not of the harness
+                raise AssertionError(f"update raised {type(e).__name__}: {str(e)[:100]}")
+            self.model.update(x, y)
 
         @rule()
         def compute(self):
@@ -185,8 +194,12 @@ def unit_histories_stateful(ctx, kind, B, steps, examples, complex_):
         @rule(i=st.integers(0, 11))
         def forward(self, i):
             x, y = pool_batch(i, complex_)
-            self.m(torch.from_numpy(x), torch.from_numpy(y))
             self.ops.append(["forward", i])
+            _LAST["ops"] = list(self.ops)
+            try:
+                self.m(torch.from_numpy(x), torch.from_numpy(y))
+            except Exception as e:  # noqa: BLE001
+                raise AssertionError(f"forward raised {type(e).__name__}: {str(e)[:100]}")
 
         def teardown(self):
             _LAST["ops"] = list(self.ops) + [["compute"]]
